@@ -237,6 +237,11 @@ def _taball(U):
         except ValueError:
             pass
         try:
+            TA({"v": T("v", ibands=rnp.array([2, 0]))}, ibands=[0, 2])
+            bad.append("the same bands in another order accepted (columns would be permuted relative to the other quantities)")
+        except ValueError:
+            pass
+        try:
             TA({}, mode="line")
             bad.append("unknown mode accepted")
         except AssertionError:
@@ -315,3 +320,10 @@ def _slot_lemma(U):
         hyp = [g2 >= 1, n01 >= 1, k2 >= 0, k2 < g2, m >= 0, m <= n01 - 1]
         return hyp, land(k2 + g2 * m >= 0, k2 + g2 * m <= g2 * n01 - 1)
     U.lemma("range, step 2: k2 + g2*m lies in [0, g2*n01) for m in [0, n01)", rng2)
+
+
+
+# the tabulator itself (which band lands in which column, for any band selection): C15's unit, registered here as well
+from contracts.C15 import _tab_unit as _c15_tab
+_c15_tab([2, 0, 3], False, prop="C30")
+_c15_tab(None, False, prop="C30")
